@@ -22,4 +22,24 @@ PROPS = {
         real=["logstream.LineReader (ReadAndSend, send, Finish)", "logline.LogLine", "unbuffered output channel + consumer task (sampled part)"],
         stub=["io.Reader (simulated: chunking, zero-byte reads, EOF-with-data)"],
     ),
+    "C16": dict(
+        level="exploration",
+        quick=dict(runs=6000),
+        thorough=dict(runs=150000),
+        rule=("each run = one filesystem history on the real filesystem for one tailed path + one seeded schedule of the tailer's goroutines "
+              "(pattern poller, stream goroutines of old and new generations, forwarders, consumer). The first 1110 seeds (11110 in the "
+              "thorough tier) enumerate every action sequence of length <= 3 (<= 4) over {line, fragment, CRLF line, truncate, rename+create, "
+              "copy+truncate, delete, recreate, poll, clock jump > 24h}; later seeds sample sequences up to 12 actions. After every action the "
+              "tailer observes the state (stream tick, pattern tick, stream tick, to quiescence, until a round delivers nothing new). "
+              "Non-trivial: a file generation ended with an unterminated fragment buffered, or a truncation/rotation happened; distinct = "
+              "distinct (action sequence, schedule signature) pairs among those."),
+        assumptions=[
+            "appends happen only while the path exists; a re-created file is empty when the tailer first sees it; truncation is to length 0 (statement premise: each step is observed before the next)",
+            "a clock jump between observations has no effect (the stale-stream timer is stopped by the empty read that follows every data read)",
+            "filesystem is the sandbox's (ext4 scratch dir and /dev/shm tmpfs, chosen per run); read errors such as EIO/ESTALE are not injected",
+        ],
+        expect_probes=["generation_ended_with_fragment", "fragment_then_truncate", "fragment_then_rename-rotate", "fragment_then_copy-truncate", "fragment_then_delete", "fragment_then_stop"],
+        real=["tailer.Tailer (AddPattern, pollers, TailPath, forwarders, shutdown)", "logstream.fileStream", "logstream.LineReader", "kernel filesystem (real files)", "Go time (fake clock of the bubble)"],
+        stub=["waker.Waker (simulated: ticks are controller actions)"],
+    ),
 }
